@@ -9,7 +9,10 @@ import (
 	"crypto/x509/pkix"
 	"encoding/pem"
 	"fmt"
+	"github.com/fabiolb/fabio/proxy"
 	"math/big"
+	"net"
+	"net/http"
 	"os"
 	"path/filepath"
 	"strings"
@@ -136,6 +139,30 @@ func TestC11ListenersFromConfig(t *testing.T) {
 				return x.SerialNumber.String()
 			}
 			before := serial(tcs[0])
+			// ... also for clients that send no server name, through a listener fabio opens with
+			// that configuration (they get the first certificate of the CURRENT set)
+			lnAddr := ""
+			peerSerial := func() string {
+				c, err := tls.DialWithDialer(&net.Dialer{Timeout: 3 * time.Second}, "tcp", lnAddr, &tls.Config{InsecureSkipVerify: true})
+				if err != nil {
+					return "handshake failed: " + err.Error()
+				}
+				defer c.Close()
+				return c.ConnectionState().PeerCertificates[0].SerialNumber.String()
+			}
+			noSNIBefore := ""
+			if !strict[0] {
+				lnAddr = hx.FreeAddr()
+				go proxy.ListenAndServeHTTP(config.Listen{Addr: lnAddr, Proto: "https"}, http.NotFoundHandler(), tcs[0])
+				if !waitListening(lnAddr) {
+					t.Fatalf("VERIF-INCONCLUSIVE listener did not come up")
+				}
+				defer flex(proxy.CloseProxy, lnAddr, time.Second)
+				noSNIBefore = peerSerial()
+				if noSNIBefore != before {
+					t.Fatalf("a client without server name is presented serial %s, the first certificate of the set has %s", noSNIBefore, before)
+				}
+			}
 			if err := writeCertPair(dir, "a0", "a.example.com"); err != nil {
 				t.Fatal(err)
 			}
@@ -146,6 +173,12 @@ func TestC11ListenersFromConfig(t *testing.T) {
 					t.Fatalf("certificate source with refresh=%s: a renewed certificate (same file names) is still not served %v after it was written\nsource: %q", refresh, d+4*time.Second, args[2])
 				}
 				time.Sleep(10 * time.Millisecond)
+			}
+			if lnAddr != "" {
+				if got, want := peerSerial(), serial(tcs[0]); got != want {
+					t.Fatalf("after the renewal a client without server name is still presented serial %s (before the renewal: %s); the first certificate of the current set has %s", got, noSNIBefore, want)
+				}
+				hx.Class("renewal-picked-up-for-clients-without-server-name")
 			}
 			hx.Class("renewal-picked-up:refresh=" + refresh)
 		}
